@@ -98,6 +98,11 @@ class VConfig:
                 s -= np.floor(s)
             else:
                 s = rng.random((N, ndim))
+            if recipe.get("place") == "face" and layout != "hex":
+                s[0, 0] = 0.0                              # a particle exactly on the lower x face
+            if recipe.get("place") == "unwrapped" and layout != "hex":
+                # recorded in a neighbouring periodic image (an unwrapped dump): same system
+                s = s + rng.integers(-1, 2, size=s.shape) * (rng.random((len(s), 1)) < 0.3)
             self.frames.append(self.los[_t] + s * self.Ls[_t])
         # per-frame particle numbers: constant, or frame t keeps the first Ns[t] particles
         self.Ns = [self.N] * T
@@ -420,6 +425,7 @@ class World(WorldBase):
                    "shape": rng.choice(["cube", "cube", "cube", "slab"]),
                    "layout": rng.choice(["random", "lattice"]), "boxes": rng.choice(["const", "const", "vary", "creep", "cycle"]),
                    "nvary": rng.random() < 0.25, "grow": rng.random() < 0.4,
+                   "place": rng.choice(["inside", "inside", "inside", "face", "unwrapped"]),
                    "mem": rng.choice(["C", "C", "C", "F", "strided", "f32"]),
                    "subseed": rng.randrange(1 << 40)}
             if huge:
